@@ -275,7 +275,7 @@ class AminoAcidSeqRecord(SeqRecord):
         )
         sites = []
         first_cleave_site = next(it_cleavage, None)
-        if first_cleave_site is not None:
+        if first_cleave_site is not None and first_cleave_site < len(self.seq):
             sites.append(first_cleave_site)
         it_stop = self.iter_stop_sites()
         first_stop_site = next(it_stop, None)
@@ -299,7 +299,7 @@ class AminoAcidSeqRecord(SeqRecord):
         )
         sites:List[Tuple[int, Union[Tuple[int,int], None]]] = []
         first_cleave_site, first_range = next(it_cleavage, (None, None))
-        if first_cleave_site is not None:
+        if first_cleave_site is not None and first_cleave_site < len(self.seq):
             sites.append((first_cleave_site, first_range))
         it_stop = self.iter_stop_sites()
         first_stop_site = next(it_stop, None)
@@ -343,8 +343,9 @@ class AminoAcidSeqRecord(SeqRecord):
     def find_all_cleave_and_stop_sites(self, rule:str, exception:str=None,
             exception_sites:List[int]=None) -> List[int]:
         """ Find all enzymatic lceave sites and stop sites """
-        cleavage_sites = list(self.iter_enzymatic_cleave_sites(rule=rule,
-            exception=exception, exception_sites=exception_sites))
+        cleavage_sites = [x for x in self.iter_enzymatic_cleave_sites(rule=rule,
+            exception=exception, exception_sites=exception_sites)
+            if x < len(self.seq)]
         stop_sites_start = list(self.iter_stop_sites())
         stop_sites_end = [i + 1 for i in stop_sites_start if i < len(self.seq) - 1]
         stop_sites_start = [i for i in stop_sites_start if i > 0]
@@ -357,12 +358,12 @@ class AminoAcidSeqRecord(SeqRecord):
             exception:str=None, exception_sites:List[int]=None
             ) -> List[Tuple[int,Union[Tuple[int,int], None]]]:
         """ Find all enzymatic cleavage sites with ranges and stop sites """
-        sites = list(
-            self.iter_enzymatic_cleave_sites_with_range(
+        sites = [
+            x for x in self.iter_enzymatic_cleave_sites_with_range(
                 rule=rule, exception=exception,
                 exception_sites=exception_sites
-            )
-        )
+            ) if x[0] < len(self.seq)
+        ]
         sites_mapper = dict(sites)
         stop_sites_start = list(self.iter_stop_sites())
         stop_sites_end = [i + 1 for i in stop_sites_start if i < len(self.seq) - 1]
